@@ -160,6 +160,9 @@ ApplyStimulus(L, e, l) ==
                       hit == f.has /\ f.seq = e.seq /\ Awaiting(f, L, e.t)
                   IN IF L2.bc.set /\ L2.bc.man /\ hit /\ f.bc = L2.bc.gen
                        THEN [L2 EXCEPT !.bc.set = FALSE]
+                     \* the right confirm for the reporting fragment, but no longer awaited (late): left open
+                     ELSE IF L2.bc.set /\ L2.bc.man /\ f.has /\ f.seq = e.seq /\ f.bc = L2.bc.gen
+                       THEN [L2 EXCEPT !.bc.maybe = TRUE]
                        ELSE L2
                ELSE
                   LET rep == Unicast(e, L.cfg) /\ e.bid = L.lastReq.bid /\ e.seq = L.lastReq.seq
